@@ -17,3 +17,4 @@ def run(chk):
             only_cells=True, ids=('B2', 'B2h', 'B2o'))
     clones.rule_clones(chk, 'N1', select=lambda s: bool(_re.search(r'gcm|ccm|pon|docsis', s)), floor=20)
     clones.rule_const_width(chk, 'N2', floor=100)
+    clones.rule_threshold_tests(chk, 'N3', floor=20)
